@@ -5,7 +5,7 @@ import "verif/mc/checks/gen"
 
 func main() {
 	gen.Main("C06", "exploration",
-		"corpus x runtimes x value trees as in C04; for every tree every legal encoding variant generated at the wire level (all order permutations of <= 4 top-level occurrences, else reversal/rotation; packed <-> unpacked, every split point, mixed packed+unpacked; singular scalar twice (last wins); singular message twice / split in two / empty-then-full / full-then-empty; map entries value-key, key only, value only, empty, duplicated key, duplicated key inside one entry, unknown field inside an entry; two members of one oneof; implicit-presence scalars written with their zero value; 7 unknown-field shapes + 2 with a padded (non-minimal) key at every position; the same variants inside nested messages) decoded by the generated Unmarshal into (a) a fresh struct and (b) a struct pre-populated with other content and a primed size cache, compared with the reference runtime's decode of the same bytes (dynamicpb, bit-exact trees incl. unknown bytes). distinct_nontrivial = (variant, destination) pairs that reached the tree comparison and agreed.",
+		"corpus x runtimes x value trees as in C04; for every tree every legal encoding variant generated at the wire level (all order permutations of <= 4 top-level occurrences, else reversal/rotation; packed <-> unpacked, every split point, mixed packed+unpacked; singular scalar twice (last wins); singular message twice / split in two / empty-then-full / full-then-empty; map entries value-key, key only, value only, empty, duplicated key, duplicated key inside one entry, unknown field inside an entry; two members of one oneof; implicit-presence scalars written with their zero value; 7 unknown-field shapes + 2 with a padded (non-minimal) key at every position; the same variants inside nested messages) decoded by the generated Unmarshal into (a) a fresh struct and (b) a struct pre-populated with other content and a primed size cache, compared with the reference runtime's decode of the same bytes (dynamicpb, bit-exact trees incl. unknown bytes). distinct_nontrivial = (variant, destination) pairs that reached the tree comparison and agreed. ROUND 7-8 ADDITIONS: unknown fields with one-byte keys; a padded-key unknown field followed by a second unknown field; a destination whose previous Unmarshal failed half-way; the caller's input buffer is unchanged after Unmarshal.",
 		"variants the reference itself rejects are internal errors of the generator, not violations",
 		"the expected tree is always the reference's decode of the same bytes (no hand-written expectation)")
 }
